@@ -72,7 +72,7 @@ def project(ex, armed):
         elif e == "Probe":
             if probe_depth is None:
                 probe_depth = ev["depth"]
-            out.append({"e": "Probe", "c1": ev["c1"], "c2": ev["c2"], "sum": ev["sum"], "chain": ev["chain"], "dt": ev["dt"], "depthOk": ev["depth"] == probe_depth})
+            out.append({"e": "Probe", "c1": ev["c1"], "c2": ev["c2"], "sum": ev["sum"], "chain": ev["chain"], "dt": ev["dt"], "ns": ev["ns"], "depthOk": ev["depth"] == probe_depth})
     return out
 
 
